@@ -176,10 +176,24 @@ func (c *ctx) shape(n cm.Node) {
 		case cm.LinkKind:
 			if len(t) < 2 || t[0] != '[' || (t[len(t)-1] != ']' && t[len(t)-1] != ')') {
 				bad("link brackets")
+			} else if (in.LinkReference() != "") != (t[len(t)-1] == ']') {
+				bad("a reference link ends with ']', an inline link with ')'")
 			}
 		case cm.ImageKind:
 			if len(t) < 3 || t[0] != '!' || t[1] != '[' || (t[len(t)-1] != ']' && t[len(t)-1] != ')') {
 				bad("image brackets")
+			} else if (in.LinkReference() != "") != (t[len(t)-1] == ']') {
+				bad("a reference image ends with ']', an inline image with ')'")
+			}
+		case cm.LinkTitleKind:
+			// a title is delimited by "...", '...' or (...)
+			if len(t) < 2 || !((t[0] == '"' && t[len(t)-1] == '"') || (t[0] == '\'' && t[len(t)-1] == '\'') || (t[0] == '(' && t[len(t)-1] == ')')) {
+				bad("title delimiters")
+			}
+		case cm.LinkDestinationKind:
+			// a destination in angle brackets is closed by one
+			if len(t) > 0 && t[0] == '<' && (len(t) < 2 || t[len(t)-1] != '>') {
+				bad("destination angle brackets")
 			}
 		case cm.AutolinkKind:
 			if len(t) < 2 || t[0] != '<' || t[len(t)-1] != '>' {
